@@ -157,12 +157,12 @@ class ListFn(Obligation):
         p.assume(z3.And(size >= 1, size <= 1000, off >= 0, off <= USIZE))
         pg = paging(ctx, size, Enum('Option', z3.If(has, 1, 0), {1: (S(off, 'usize'),)}))
         if self.which == 'topics':
-            state = mk(ctx, 'State', 'topics/topic_manager', topics=mp, next_id=S(p.fresh('next_id'), 'u32'))
+            state = mk_opt(ctx, 'State', 'topics/topic_manager', topics=mp, next_id=S(p.fresh('next_id'), 'u32'))
             mgr = mk(ctx, 'TopicManager', state=ArcCell(Cell(LockM('topic_manager.state', Cell(state)))))
             fn = ctx.fn('TopicManager', 'list_topics')
             r = run_to_end(ip.call_fn(fn, [Ref(Loc(Cell(mgr))), StrTok(project), pg]))
         elif self.which == 'subs':
-            state = mk(ctx, 'State', 'subscriptions/subscription_manager', subscriptions=mp, next_id=S(p.fresh('next_id'), 'u32'))
+            state = mk_opt(ctx, 'State', 'subscriptions/subscription_manager', subscriptions=mp, next_id=S(p.fresh('next_id'), 'u32'))
             mgr = mk(ctx, 'SubscriptionManager', state=ArcCell(Cell(LockM('subscription_manager.state', Cell(state)))),
                      push_registry=Opaque('push_registry'))
             fn = ctx.fn('SubscriptionManager', 'list_subscriptions_in_project')
@@ -258,4 +258,8 @@ class C13walk(Obligation):
 
 def obligations(ctx, cfg):
     n = 3 if cfg['tier'] == 'quick' else 4
-    return [C13a(), C13parse(), C13walk(), C13d(), ListFn(ctx, 'topics', n), ListFn(ctx, 'subs', n), ListFn(ctx, 'topicsubs', n)]
+    from props.C09 import CreateTopic
+    from props.C16 import CreateSubscription
+    ct, cs = CreateTopic(), CreateSubscription(ctx, abandon=False)
+    ct.id, cs.id = 'C13.c-ids-topics', 'C13.c-ids-subscriptions'
+    return [C13a(), C13parse(), C13walk(), C13d(), ListFn(ctx, 'topics', n), ListFn(ctx, 'subs', n), ListFn(ctx, 'topicsubs', n), ct, cs]
